@@ -84,6 +84,36 @@ def apply_rewrites(ws, rewrites):
     return done
 
 
+VEC_PRELUDE = (
+    "#[allow(unused_imports)] use verif_models::bvec::Vec;\n"
+    "#[allow(unused_macros)] macro_rules! vec { ($($t:tt)*) => { verif_models::bvec!($($t)*) }; }\n"
+)
+
+
+def apply_vec_model(ws, crate_dirs):
+    """Library-model substitution for alloc::vec::Vec in whole crates: every source file gets an
+    explicit import of the boxed fixed-capacity model (shadowing the prelude's Vec and vec!) and
+    spelled-out `std::vec::` paths are redirected. Function bodies are not touched."""
+    done = []
+    for c in crate_dirs:
+        root = os.path.join(ws, "crates", c, "src")
+        if not os.path.isdir(root):
+            raise EncodingStale(f"crates/{c}/src missing")
+        for dp, _, fns in os.walk(root):
+            for fn in fns:
+                if not fn.endswith(".rs"):
+                    continue
+                p = os.path.join(dp, fn)
+                lines = open(p).read().split("\n")
+                i = 0
+                while i < len(lines) and (lines[i].startswith("//!") or lines[i].startswith("#![") or lines[i].strip() == ""):
+                    i += 1
+                body = "\n".join(lines[i:]).replace("std::vec::IntoIter", "verif_models::bvec::IntoIter")
+                open(p, "w").write("\n".join(lines[:i]) + ("\n" if i else "") + VEC_PRELUDE + body)
+        done.append({"crate": c, "from": "alloc::vec::Vec (prelude) / vec!", "to": "verif_models::bvec::Vec / bvec!"})
+    return done
+
+
 def inject_harness(ws, rel, harness_abs, modname):
     p = os.path.join(ws, rel)
     if not os.path.exists(p):
